@@ -272,11 +272,13 @@ struct Monitor<'a> {
     fexit: HashMap<u32, Vec<i32>>,
     /// log positions of firings caused by a conditional branch that was NOT taken (fall-through)
     nt_idx: std::cell::RefCell<HashSet<usize>>,
+    /// log positions of firings caused by a branch TAKEN to the function body label
+    fnl_idx: std::cell::RefCell<HashSet<usize>>,
 }
 
 impl<'a> Monitor<'a> {
     fn new(m: &'a IModule, plan: &[Probe]) -> Self {
-        let mut mo = Monitor { m, before: HashMap::new(), after: HashMap::new(), sem: HashMap::new(), bentry: HashMap::new(), bexit: HashMap::new(), fentry: HashMap::new(), fexit: HashMap::new(), nt_idx: Default::default() };
+        let mut mo = Monitor { m, before: HashMap::new(), after: HashMap::new(), sem: HashMap::new(), bentry: HashMap::new(), bexit: HashMap::new(), fentry: HashMap::new(), fexit: HashMap::new(), nt_idx: Default::default(), fnl_idx: Default::default() };
         for p in plan {
             let f = fid(p.func);
             match p.mode {
@@ -361,7 +363,11 @@ impl<'a> Monitor<'a> {
             Event::IfSkipped { f, if_pc } => Self::fire(log, self.sem.get(&(*f, *if_pc))),
             Event::BranchTaken { f, pc, target, is_loop } => {
                 // the branch's own semantic-after probe: once per execution
+                let from = log.len();
                 Self::fire(log, self.sem.get(&(*f, *pc)));
+                if target.is_none() {
+                    self.fnl_idx.borrow_mut().extend(from..log.len());
+                }
                 if let Some(o) = target {
                     if *is_loop {
                         Self::fire(log, self.bentry.get(&(*f, *o)));
@@ -594,6 +600,21 @@ pub fn judge(case: &Case, keep_modules: bool) -> Result<Judged, String> {
         let (m2, g2) = gaps(&r2.log);
         // per gap and probe: how many of the expected firings are fall-through firings of a
         // conditional branch (they run right behind the branch, whatever its label is)
+        let fnl_gaps: Vec<BTreeMap<i32, usize>> = {
+            let nt = mon.fnl_idx.borrow();
+            let mut v = vec![BTreeMap::new()];
+            for (i, e) in r1.log.iter().enumerate() {
+                match e {
+                    LogEntry::Mark(_) => v.push(BTreeMap::new()),
+                    LogEntry::Probe(id) => {
+                        if nt.contains(&i) {
+                            *v.last_mut().unwrap().entry(*id).or_insert(0) += 1;
+                        }
+                    }
+                }
+            }
+            v
+        };
         let nt_gaps: Vec<BTreeMap<i32, usize>> = {
             let nt = mon.nt_idx.borrow();
             let mut v = vec![BTreeMap::new()];
@@ -648,10 +669,16 @@ pub fn judge(case: &Case, keep_modules: bool) -> Result<Judged, String> {
                         let is_branch_sem = |q: &Probe| q.mode == Mode::SemanticAfter && matches!(em.roles[q.func as usize].get(q.at), Some(Role::Br) | Some(Role::BrIf) | Some(Role::BrTable));
                         let other_extra = is_branch_sem(p)
                             && ac.iter().any(|(id2, n2)| *id2 != id && *n2 > e.get(id2).copied().unwrap_or(0) && by_id.get(id2).map(|q| is_branch_sem(q)).unwrap_or(false));
+                        let site_has_fn_label = site_desc(&full, &em.roles, p).contains("fn-label");
                         let dir = if na < nt {
                             "missing-on-fall-through"
                         } else if na < ne && other_extra {
                             "missing-beside-extra-firing-of-another-branch-probe"
+                        } else if na < ne && site_has_fn_label && ne - na > fnl_gaps.get(gi).and_then(|g| g.get(&id)).copied().unwrap_or(0) {
+                            // a branch with several targets, one of them the function label (listed finding:
+                            // that arrival never fires): more firings are missing than arrivals at the
+                            // function label account for
+                            "missing-at-a-construct-target"
                         } else if na < ne {
                             "missing"
                         } else {
